@@ -165,6 +165,14 @@ def render_expr(e, ctx, lang):
             return 'sum([%s])' % ', '.join(R(x) for x in e[1])
         if t == 'pymaxl':
             return 'max([%s])' % ', '.join(R(x) for x in e[1])
+        if t == 'pybuiltin':
+            # lower-case min / max / sum over ONE iterable argument that is not a list: generator, map, tuple, iterator, set, reversed, dict keys
+            func, form, xs = e[1], e[2], ', '.join(R(x) for x in e[3])
+            arg = {'gen': '(v_ for v_ in [%s])', 'map': 'map(float, [%s])', 'tuple': '(%s,)', 'iter': 'iter([%s])', 'set': '{%s}', 'reversed': 'reversed([%s])',
+                   'dictkeys': 'dict.fromkeys([%s])', 'filter': 'filter(None, [%s])', 'zip': '(p_[0] for p_ in zip([%s], [0, 0, 0, 0]))'}[form] % xs
+            if form == 'gen':
+                return '%s%s' % (func, arg)
+            return '%s(%s)' % (func, arg)
     raise ValueError('cannot render %r for %s' % (e, lang))
 
 
@@ -174,7 +182,7 @@ def is_neutral(e):
         return all(is_neutral(v) for v in e.values())
     if not isinstance(e, list):
         return True
-    if e and isinstance(e[0], str) and e[0] in ('int_of', 'float_of', 'pymax', 'pymin', 'pysum', 'pymaxl', 'floordiv'):
+    if e and isinstance(e[0], str) and e[0] in ('int_of', 'float_of', 'pymax', 'pymin', 'pysum', 'pymaxl', 'pybuiltin', 'floordiv'):
         return False
     return all(is_neutral(x) for x in e)
 
